@@ -40,6 +40,11 @@ RULE += (" Added after the white-box review: "
          "read-back and read-modify-write after setter steps, integer "
          "angle arrays ")
 
+RULE += (" Added after the second white-box review: the inverse query "
+         "as the first call after a setter, judged against the lock-step "
+         "model; numpy scalars (float64/int64 distances, int64/int32/intp "
+         "wall counts) as scalar arguments. ")
+
 LEVEL_TEXT = ("Seeded, sharded Hypothesis search over model configurations, "
               "setter histories and distances/angles, judged by a lock-step "
               "model (documented closed forms with the current parameter "
@@ -173,6 +178,7 @@ def _pathloss_strategy(tier):
                      form=draw(forms_gen if model in (
                          "general", "freespace", "3gpp1") else forms_any),
                      int_scalars=draw(bools), rmw=draw(bools),
+                     inverse_first=draw(bools), np_scalars=draw(bools),
                      plot=draw(bools) and draw(bools))
             if model == "metis":
                 s["omit_kw"] = draw(bools)
@@ -268,6 +274,9 @@ def _initial(P, model, init):
     if model == "freespace":
         if init:
             p = dict(n=init["n"], fc=init["fc"])
+            if int(p["fc"]) % 2:
+                # documented positional order: exponent, then frequency
+                return P.PathLossFreeSpace(p["n"], p["fc"]), p
             return P.PathLossFreeSpace(n=p["n"], fc=p["fc"]), p
         return P.PathLossFreeSpace(), dict(n=2.0, fc=900.0)
     if model == "3gpp1":
@@ -358,6 +367,13 @@ def _query(ctx, P, obj, p, policy, model, step, nset):
         if step["int_scalars"] and d == int(d) and d < 1e15:
             d = int(d)
         kw = kw_of(wl[i])
+        if step.get("np_scalars"):
+            # what a loop over a distance array / a wall-count matrix hands
+            # to the library: numpy scalars
+            d = np.int64(d) if isinstance(d, int) else np.float64(d)
+            if model == "metis":
+                kw = kw_of((np.int64, np.int32, np.intp)[i % 3](wl[i]))
+            ctx.label("numpy_scalar_arguments")
         if step.get("omit_kw") and model == "metis" and wl[i] == 0:
             # line of sight is the documented default of num_walls
             kw = {}
@@ -625,6 +641,28 @@ def _check_pathloss(case, ctx):
                     setattr(obj, attr, got)
             if step.get("rmw"):
                 ctx.label("read_modify_write")
+            if step.get("inverse_first") and model in OFFERS_INVERSE:
+                # the distance-for-a-loss query as the FIRST call after the
+                # setters, judged against the lock-step model (not against
+                # the library's own forward value)
+                A0, B0 = _coeffs(model, p, 0)
+                k0, v0 = step["d"][0]
+                if k0 == "abs":
+                    L0 = A0 * math.log10(float(v0)) + B0
+                    if L0 > 1e-3:
+                        t0 = dict(model=model, nset=min(nset, 3))
+                        back = float(obj.which_distance_dB(L0))
+                        ctx.close("inverse_first_dB", _rel(back, float(v0)),
+                                  1e-9, "which_distance_dB(%r) = %r right "
+                                  "after the setters, the model gives %r "
+                                  "(params %r)" % (L0, back, v0, p), t0)
+                        back = float(obj.which_distance(10.0 ** (-L0 / 10.0)))
+                        ctx.close("inverse_first_linear",
+                                  _rel(back, float(v0)), 1e-9,
+                                  "which_distance(10^(-%r/10)) = %r right "
+                                  "after the setters, the model gives %r "
+                                  "(params %r)" % (L0, back, v0, p), t0)
+                        ctx.label("inverse_before_any_forward_query")
             if step.get("plot"):
                 # the deterministic loss is plotted on the caller's axes (a
                 # stand-in object): this must not change the model
